@@ -352,7 +352,7 @@ theorem charrefSpec_identity (n : Nat) (h : n < 128 ∨ 160 ≤ n) :
 
 /-- witness on the unrepaired mirror: a decimal reference one digit longer than `sys.int_max_str_digits` -/
 theorem handleCharrefOld_fails_long_decimal :
-    handleCharrefOld none (List.replicate (Gen.intMaxStrDigits + 1) 57) = .error .valueError := by
+    handleCharrefOld none (List.replicate (Gen.intMaxStrDigitsC06 + 1) 57) = .error .valueError := by
   decide +kernel
 
 /-- witness on the unrepaired mirror: a document encoding whose one-byte decode raises something that is not a
@@ -360,7 +360,7 @@ theorem handleCharrefOld_fails_long_decimal :
 theorem handleCharrefOld_fails_codec :
     handleCharrefOld (some fun _ => .otherError) [49] = .error .unicodeError := by decide
 
-example : handleCharref none (List.replicate (Gen.intMaxStrDigits + 1) 57) = .ok [0xFFFD] := by decide +kernel
+example : handleCharref none (List.replicate (Gen.intMaxStrDigitsC06 + 1) 57) = .ok [0xFFFD] := by decide +kernel
 example : handleCharref (some fun _ => .otherError) [49] = .ok [1] := by decide
 example : handleCharref none (BS.ofS "x41") = .ok [65] := by decide
 example : handleCharref none (BS.ofS "150") = .ok [0x2013] := by decide
